@@ -6,20 +6,20 @@ open Common C19
 
 def viewOf (σ : Spec) : View := fun k =>
   match σ.get k with
-  | .present v a b => some (v, a, b)
+  | .present v a b _ => some (v, a, b)
   | _ => none
 
 theorem viewOf_some {σ : Spec} {k : Key} {v : Bytes} {a b : Int} (h : viewOf σ k = some (v, a, b)) :
-    σ.get k = .present v a b := by
+    ∃ fl, σ.get k = .present v a b fl := by
   unfold viewOf at h
   split at h
-  · rename_i v' a' b' hg
+  · rename_i v' a' b' fl hg
     simp only [Option.some.injEq, Prod.mk.injEq] at h
     obtain ⟨rfl, rfl, rfl⟩ := h
-    exact hg
+    exact ⟨fl, hg⟩
   · simp at h
 
-theorem viewOf_present {σ : Spec} {k : Key} {v : Bytes} {a b : Int} (h : σ.get k = .present v a b) :
+theorem viewOf_present {σ : Spec} {k : Key} {v : Bytes} {a b : Int} {fl : Option Int} (h : σ.get k = .present v a b fl) :
     viewOf σ k = some (v, a, b) := by
   simp [viewOf, h]
 
@@ -27,8 +27,8 @@ theorem get_aPut (σ : Spec) (k k' : Key) (x : JEnt) : Spec.get (aPut k x σ) k'
   simp only [Spec.get, aGet_aPut]
   split <;> rfl
 
-theorem viewOf_put_present (σ : Spec) (k : Key) (v : Bytes) (a b : Int) :
-    viewOf (aPut k (.present v a b) σ) = upd (viewOf σ) k (some (v, a, b)) := by
+theorem viewOf_put_present (σ : Spec) (k : Key) (v : Bytes) (a b : Int) (fl : Option Int) :
+    viewOf (aPut k (.present v a b fl) σ) = upd (viewOf σ) k (some (v, a, b)) := by
   funext k'
   by_cases hk : k' = k <;> simp [viewOf, get_aPut, upd, hk]
 
@@ -36,94 +36,143 @@ theorem viewOf_put_deleted (σ : Spec) (k : Key) : viewOf (aPut k .deleted σ) =
   funext k'
   by_cases hk : k' = k <;> simp [viewOf, get_aPut, upd, hk]
 
-theorem viewOf_putAll (a b : Int) : ∀ (data : Res) (σ : Spec),
-    viewOf (data.foldl (fun σ kv => aPut kv.1 (.present kv.2 a b) σ) σ) = updAll (viewOf σ) data a b
+theorem viewOf_putAll (a b : Int) (fl : Option Int) : ∀ (data : Res) (σ : Spec),
+    viewOf (data.foldl (fun σ kv => aPut kv.1 (.present kv.2 a b fl) σ) σ) = updAll (viewOf σ) data a b
   | [], _ => rfl
   | (k1, v1) :: rest, σ => by
-    show viewOf (rest.foldl _ (aPut k1 (.present v1 a b) σ)) = updAll (upd (viewOf σ) k1 _) rest a b
-    rw [viewOf_putAll a b rest, viewOf_put_present]
+    show viewOf (rest.foldl _ (aPut k1 (.present v1 a b fl) σ)) = updAll (upd (viewOf σ) k1 _) rest a b
+    rw [viewOf_putAll a b fl rest, viewOf_put_present]
 
-/-! ### the judge's back-fill bump -/
+/-! ### the judge's back-fill bookkeeping -/
 
-theorem le_trans {f g h : View} (h1 : le f g) (h2 : le g h) : le f h := by
-  intro k v a b hf
-  obtain ⟨b1, hg, hb1⟩ := h1 k v a b hf
-  obtain ⟨b2, hh, hb2⟩ := h2 k v a b1 hg
-  exact ⟨b2, hh, by omega⟩
+/-- the entry a returned read leaves in the judge's map, if it changes it. -/
+def refillEnt (cfg : JCfg) (held : List Key) (j : JSt) (k : Key) : Option JEnt :=
+  match j.spec.get k with
+  | .present val dV dW _ =>
+    if cfg.hasLru = true ∧ servedLocally cfg held j.W dW k = false ∧ j.V < dV
+    then some (.present val dV (j.W + cfg.dttl) (some j.W)) else none
+  | _ => none
 
-theorem bump_le (cfg : JCfg) (j : JSt) (σ : Spec) (k : Key) : le (viewOf σ) (viewOf (bump cfg j σ k)) := by
-  intro k' v a b hk'
-  unfold bump
-  split
-  · rename_i val dV dW hg
+theorem refill_eq (cfg : JCfg) (held : List Key) (j : JSt) (σ : Spec) (k : Key) :
+    refill cfg held j σ k = match refillEnt cfg held j k with | some e => aPut k e σ | none => σ := by
+  unfold refill refillEnt
+  cases hg : j.spec.get k with
+  | present val dV dW fl =>
+    by_cases hc : cfg.hasLru = true ∧ servedLocally cfg held j.W dW k = false ∧ j.V < dV
+    · simp only [if_pos hc]
+    · simp only [if_neg hc]
+  | never => rfl
+  | deleted => rfl
+
+def refillAll (cfg : JCfg) (held : List Key) (j : JSt) (σ : Spec) (res : Res) : Spec :=
+  res.foldl (fun σ kv => refill cfg held j σ kv.1) σ
+
+theorem refillAll_get (cfg : JCfg) (held : List Key) (j : JSt) : ∀ (res : Res) (σ : Spec) (k : Key),
+    (refillAll cfg held j σ res).get k =
+      if k ∈ res.map (·.1) then (refillEnt cfg held j k).getD (σ.get k) else σ.get k
+  | [], _, _ => by simp [refillAll]
+  | (k1, v1) :: rest, σ, k => by
+    show (refillAll cfg held j (refill cfg held j σ k1) rest).get k = _
+    rw [refillAll_get cfg held j rest]
+    have h1 : (refill cfg held j σ k1).get k =
+        if k = k1 then (refillEnt cfg held j k).getD (σ.get k) else σ.get k := by
+      rw [refill_eq]
+      by_cases hk : k = k1
+      · subst hk
+        cases refillEnt cfg held j k with
+        | none => simp
+        | some e => simp [get_aPut]
+      · cases refillEnt cfg held j k1 with
+        | none => simp [hk]
+        | some e => simp [get_aPut, hk]
+    simp only [List.map_cons, List.mem_cons]
+    by_cases hr : k ∈ rest.map (·.1)
+    · simp only [hr, if_true, or_true]
+      rw [h1]
+      by_cases hk : k = k1
+      · simp only [hk, if_true]
+        cases refillEnt cfg held j k1 <;> rfl
+      · simp only [hk, if_false]
+    · simp only [hr, if_false, or_false]
+      exact h1
+
+/-- the view after a read: the in-memory deadline of an entry changes exactly when the read
+returned it, the in-memory layer did not serve it and it was within its TTL. -/
+theorem viewOf_refillAll (cfg : JCfg) (held : List Key) (j : JSt) (res : Res) (k : Key) (v : Bytes) (a b : Int)
+    (hk : viewOf j.spec k = some (v, a, b)) :
+    viewOf (refillAll cfg held j j.spec res) k =
+      if k ∈ res.map (·.1) ∧ cfg.hasLru = true ∧ servedLocally cfg held j.W b k = false ∧ j.V < a
+      then some (v, a, j.W + cfg.dttl) else some (v, a, b) := by
+  obtain ⟨fl, hg⟩ := viewOf_some hk
+  unfold viewOf
+  rw [refillAll_get]
+  by_cases hm : k ∈ res.map (·.1)
+  · simp only [hm, if_true, true_and]
+    have hre : refillEnt cfg held j k =
+        if cfg.hasLru = true ∧ servedLocally cfg held j.W b k = false ∧ j.V < a
+        then some (.present v a (j.W + cfg.dttl) (some j.W)) else none := by
+      unfold refillEnt; rw [hg]
+    rw [hre]
+    by_cases hc : cfg.hasLru = true ∧ servedLocally cfg held j.W b k = false ∧ j.V < a
+    · rw [if_pos hc, if_pos hc]; rfl
+    · rw [if_neg hc, if_neg hc]; simp [hg]
+  · simp only [hm, if_false, false_and]
+    simp [hg]
+
+theorem viewOf_refillAll_none (cfg : JCfg) (held : List Key) (j : JSt) (res : Res) (k : Key)
+    (hk : viewOf j.spec k = none) : viewOf (refillAll cfg held j j.spec res) k = none := by
+  have hne : ∀ v a b fl, j.spec.get k ≠ .present v a b fl := by
+    intro v a b fl hg
+    rw [viewOf_present hg] at hk
+    simp at hk
+  unfold viewOf
+  rw [refillAll_get]
+  have hre : refillEnt cfg held j k = none := by
+    unfold refillEnt
     split
-    · rw [viewOf_put_present]
-      simp only [upd]
-      split
-      · rename_i hk; subst hk
-        have := viewOf_present hg
-        rw [this] at hk'
-        simp only [Option.some.injEq, Prod.mk.injEq] at hk'
-        obtain ⟨rfl, rfl, rfl⟩ := hk'
-        exact ⟨_, rfl, by omega⟩
-      · exact ⟨b, hk', Int.le_refl _⟩
-    · exact ⟨b, hk', Int.le_refl _⟩
-  · exact ⟨b, hk', Int.le_refl _⟩
-
-theorem bump_self (cfg : JCfg) (j : JSt) (σ : Spec) (k : Key) (v : Bytes) (a b : Int)
-    (hk : viewOf σ k = some (v, a, b)) (hl : cfg.hasLru = true) (hlt : j.V < a) :
-    ∃ b', viewOf (bump cfg j σ k) k = some (v, a, b') ∧ j.W + cfg.dttl ≤ b' := by
-  have hg := viewOf_some hk
-  unfold bump
-  rw [hg]
-  simp only [hl, hlt, and_self, if_true]
-  rw [viewOf_put_present]
-  exact ⟨max b (j.W + cfg.dttl), by simp [upd], Int.le_max_right _ _⟩
-
-def bumpAll (cfg : JCfg) (j : JSt) (σ : Spec) (res : Res) : Spec := res.foldl (fun σ kv => bump cfg j σ kv.1) σ
-
-theorem bumpAll_le (cfg : JCfg) (j : JSt) : ∀ (res : Res) (σ : Spec), le (viewOf σ) (viewOf (bumpAll cfg j σ res))
-  | [], _ => le_refl _
-  | (k1, _) :: rest, σ => le_trans (bump_le cfg j σ k1) (bumpAll_le cfg j rest _)
-
-theorem bumpAll_bumped (cfg : JCfg) (j : JSt) : ∀ (res : Res) (σ : Spec) (k : Key) (v : Bytes) (a b : Int),
-    k ∈ res.map (·.1) → viewOf σ k = some (v, a, b) → cfg.hasLru = true → j.V < a →
-    ∃ b', viewOf (bumpAll cfg j σ res) k = some (v, a, b') ∧ j.W + cfg.dttl ≤ b'
-  | [], _, _, _, _, _, h, _, _, _ => by simp at h
-  | (k1, v1) :: rest, σ, k, v, a, b, hmem, hk, hl, hlt => by
-    show ∃ b', viewOf (bumpAll cfg j (bump cfg j σ k1) rest) k = _ ∧ _
-    by_cases he : k = k1
-    · subst he
-      obtain ⟨b1, h1, h2⟩ := bump_self cfg j σ k v a b hk hl hlt
-      obtain ⟨b2, h3, h4⟩ := bumpAll_le cfg j rest (bump cfg j σ k) k v a b1 h1
-      exact ⟨b2, h3, by omega⟩
-    · simp only [List.map_cons, List.mem_cons] at hmem
-      rcases hmem with h | h
-      · exact absurd h he
-      · obtain ⟨b1, h1, _⟩ := bump_le cfg j σ k1 k v a b hk
-        exact bumpAll_bumped cfg j rest _ k v a b1 h h1 hl hlt
+    · rename_i val dV dW fl hg; exact absurd hg (hne _ _ _ _)
+    · rfl
+  rw [hre]
+  simp only [Option.getD_none, ite_self]
 
 /-! ### one step -/
 
 structure Rel (cd : Codec) (cfg : JCfg) (s : St) (j : JSt) : Prop where
-  inv : Inv cd s.wall s.be s.layers (viewOf j.spec)
+  inv : Inv cd s.be s.layers (viewOf j.spec)
   hV : j.V = s.be.now
   hW : j.W = s.wall
   hcfg : cfg = cfgOf s.layers
 
 theorem cfgOf_same {ls ls' : List Layer} (h : same ls ls') : cfgOf ls' = cfgOf ls := by
-  unfold cfgOf; rw [same_firstLru h]
+  unfold cfgOf; rw [same_firstLru h, same_upVers h]
 
-theorem checkRead_nil (cfg : JCfg) (j : JSt) (keys : List Key) (k : Key) (v : Bytes) (a b : Int)
-    (hk : k ∈ keys) (hg : j.spec.get k = .present v a b) (hd : j.V < a ∨ (cfg.hasLru = true ∧ j.W < b)) :
-    checkRead cfg j keys k v = [] := by
+theorem checkRead_nil (cfg : JCfg) (held : List Key) (j : JSt) (keys : List Key) (k : Key) (v : Bytes) (a b : Int)
+    (fl : Option Int) (hk : k ∈ keys) (hg : j.spec.get k = .present v a b fl)
+    (hd : servedLocally cfg held j.W b k = true ∨ j.V < a) :
+    checkRead cfg held j keys k v = [] := by
   unfold checkRead
   rw [hg]
   simp [hk, hd]
 
+theorem liveV_iff (j : JSt) (k : Key) : liveV j k = true ↔ ∃ v a b, viewOf j.spec k = some (v, a, b) ∧ j.V < a := by
+  unfold liveV viewOf
+  cases hg : j.spec.get k with
+  | present v dV dW fl =>
+    simp only [decide_eq_true_eq, Option.some.injEq, Prod.mk.injEq]
+    constructor
+    · intro h; exact ⟨v, dV, dW, ⟨rfl, rfl, rfl⟩, h⟩
+    · rintro ⟨_, a, _, ⟨_, rfl, _⟩, h⟩; exact h
+  | never => simp
+  | deleted => simp
+
+theorem cfg_hasLru {ls : List Layer} {sz : Nat} {d : Int} (h : firstLru ls = some (sz, d)) :
+    (cfgOf ls).hasLru = true ∧ (cfgOf ls).dttl = d := by
+  unfold cfgOf; rw [h]; exact ⟨rfl, rfl⟩
+
 theorem step_ok (cd : Codec) (hcd : ∀ b, cd.dec (cd.enc b) = some b) (cfg : JCfg) (s : St) (j : JSt)
     (op : Op) (hs : List (List Key)) (hr : Rel cd cfg s j) (hop : OpOk op) :
-    (jstep cfg j op (step cd s op hs).2).2 = [] ∧ Rel cd cfg (step cd s op hs).1 (jstep cfg j op (step cd s op hs).2).1 := by
+    (jstep cfg (heldKeys s.layers) j op (step cd s op hs).2).2 = [] ∧
+    Rel cd cfg (step cd s op hs).1 (jstep cfg (heldKeys s.layers) j op (step cd s op hs).2).1 := by
   obtain ⟨hinv, hV, hW, hcfg⟩ := hr
   cases op with
   | set k v ttl =>
@@ -139,12 +188,21 @@ theorem step_ok (cd : Codec) (hcd : ∀ b, cd.dec (cd.enc b) = some b) (cfg : JC
     · simp only [step, jstep]; rw [setL_now]; exact hV
     · simp only [step]; rw [cfgOf_same h1]; exact hcfg
   | add k v ttl =>
-    rcases addL_cases cd s.wall s.layers s.be k v ttl with ⟨_, h⟩ | ⟨_, h⟩
-    · simp only [step, h, jstep]
+    have hlive := live_iff cd s.be s.layers _ k hinv
+    rw [← hV] at hlive
+    rcases addL_cases cd s.wall s.layers s.be k v ttl with ⟨hl, h⟩ | ⟨hl, h⟩
+    · have : liveV j k = true := (liveV_iff j k).mpr (hlive.mp hl)
+      simp only [step, h, jstep, this, if_true]
       exact ⟨trivial, hinv, hV, hW, hcfg⟩
-    · obtain ⟨h1, h2⟩ := setL_spec cd s.wall s.layers _ s.be k v ttl hinv
-      simp only [step, h, jstep]
-      refine ⟨trivial, ?_, ?_, hW, ?_⟩
+    · have : liveV j k = false := by
+        cases hq : liveV j k with
+        | false => rfl
+        | true =>
+          have := hlive.mpr ((liveV_iff j k).mp hq)
+          rw [hl] at this; simp at this
+      obtain ⟨h1, h2⟩ := setL_spec cd s.wall s.layers _ s.be k v ttl hinv
+      simp only [step, h, jstep, this]
+      refine ⟨by simp, ?_, ?_, hW, ?_⟩
       · rw [viewOf_put_present, hV, hW]; exact h2
       · simp only []; rw [setL_now]; exact hV
       · simp only []; rw [cfgOf_same h1]; exact hcfg
@@ -156,47 +214,76 @@ theorem step_ok (cd : Codec) (hcd : ∀ b, cd.dec (cd.enc b) = some b) (cfg : JC
     · simp only [step]; rw [cfgOf_same h1]; exact hcfg
   | get keys =>
     obtain ⟨h1, h2, h3⟩ := getL_spec cd hcd s.wall s.be s.layers _ keys hs hinv
-    have hlru : ¬ noLru s.layers → cfg.hasLru = true := by
-      intro hn
-      rw [hcfg]; unfold cfgOf
-      cases hf : firstLru s.layers with
-      | none => exact absurd (firstLru_none_noLru hf) hn
-      | some p => rfl
+    have hserved : ∀ k b, servedLocally cfg (heldKeys s.layers) j.W b k = (holds s.layers k && decide (s.wall < b)) := by
+      intro k b; rw [hcfg, hW]; exact served_eq s.layers s.wall b k
     constructor
     · simp only [step, jstep]
       rw [List.flatMap_eq_nil_iff]
       intro kv hkv
       obtain ⟨hk, a, b, hf, hor⟩ := h2 kv hkv
-      apply checkRead_nil cfg j keys kv.1 kv.2 a b hk (viewOf_some hf)
-      rcases hor with h | ⟨hn, h⟩
-      · left; omega
-      · right; exact ⟨hlru hn, by omega⟩
+      obtain ⟨fl, hg⟩ := viewOf_some hf
+      apply checkRead_nil cfg _ j keys kv.1 kv.2 a b fl hk hg
+      rcases hor with ⟨hh, hlt⟩ | h
+      · left; rw [hserved]; simp [hh, hlt]
+      · right; omega
     · refine ⟨?_, hV, hW, ?_⟩
       · simp only [step, jstep]
-        apply h3 _ (bumpAll_le cfg j _ _)
-        intro sz d hfl k hk v a b hfk hlt
-        have hc : cfg = ⟨true, d⟩ := by rw [hcfg]; unfold cfgOf; rw [hfl]
-        have := bumpAll_bumped cfg j _ j.spec k v a b hk hfk (by rw [hc]) (by omega)
-        rw [hc] at this ⊢
-        simpa [hW] using this
+        show Inv cd s.be _ (viewOf (refillAll cfg (heldKeys s.layers) j j.spec (getL cd s.wall s.layers s.be keys hs).2.1))
+        apply h3
+        · -- values and TTL deadlines are kept
+          intro k
+          unfold core
+          cases hk : viewOf j.spec k with
+          | none => rw [viewOf_refillAll_none _ _ _ _ _ hk]
+          | some x =>
+            obtain ⟨v, a, b⟩ := x
+            rw [viewOf_refillAll _ _ _ _ _ v a b hk]
+            split <;> rfl
+        · intro k v a b hk hc
+          rw [viewOf_refillAll _ _ _ _ _ v a b hk]
+          rw [if_neg]
+          rintro ⟨hm, _, hns, _⟩
+          rcases hc with hc | ⟨hh, hlt⟩
+          · exact hc hm
+          · rw [hserved] at hns; simp [hh, hlt] at hns
+        · intro sz d hfl k hm v a b hk hns
+          rw [viewOf_refillAll _ _ _ _ _ v a b hk]
+          obtain ⟨hL, hD⟩ := cfg_hasLru hfl
+          rw [← hcfg] at hL hD
+          have hns' : servedLocally cfg (heldKeys s.layers) j.W b k = false := by
+            rw [hserved]
+            cases hh : holds s.layers k with
+            | false => rfl
+            | true =>
+              have : ¬ s.wall < b := fun hlt => hns ⟨hh, hlt⟩
+              simp [this]
+          have hlt : j.V < a := by
+            obtain ⟨x, hx, hxk⟩ := List.mem_map.mp hm
+            obtain ⟨_, a', b', hf, hor⟩ := h2 x hx
+            rw [hxk, hk] at hf
+            simp only [Option.some.injEq, Prod.mk.injEq] at hf
+            obtain ⟨_, rfl, rfl⟩ := hf
+            rcases hor with h | h
+            · rw [hxk] at h; exact absurd h hns
+            · omega
+          rw [if_pos ⟨hm, hL, hns', hlt⟩, hD, hW]
       · simp only [step]; rw [cfgOf_same h1]; exact hcfg
   | del k =>
-    obtain ⟨h1, h2⟩ := delL_spec cd s.wall s.layers _ s.be k hinv
+    obtain ⟨h1, h2⟩ := delL_spec cd s.layers _ s.be k hinv
     refine ⟨rfl, ?_, ?_, hW, ?_⟩
     · simp only [step, jstep]; rw [viewOf_put_deleted]; exact h2
     · simp only [step, jstep]; rw [delL_now]; exact hV
     · simp only [step]; rw [cfgOf_same h1]; exact hcfg
   | advV d =>
     refine ⟨rfl, ?_, ?_, hW, hcfg⟩
-    · exact Inv_time cd s.wall s.wall s.be (s.be.advance d) rfl (by simp only [Backend.advance]; exact (by have : 0 ≤ d := hop; omega)) (Int.le_refl _) _ _ hinv
+    · exact Inv_items cd s.be (s.be.advance d) rfl _ _ hinv
     · simp only [step, jstep, Backend.advance]; omega
   | advW d =>
-    refine ⟨rfl, ?_, hV, ?_, hcfg⟩
-    · exact Inv_time cd s.wall (s.wall + d) s.be s.be rfl (Int.le_refl _) (by have : 0 ≤ d := hop; omega) _ _ hinv
-    · simp only [step, jstep]; omega
+    refine ⟨rfl, hinv, hV, ?_, hcfg⟩
+    simp only [step, jstep]; omega
   | advBoth d =>
     refine ⟨rfl, ?_, ?_, ?_, hcfg⟩
-    · exact Inv_time cd s.wall (s.wall + d) s.be (s.be.advance d) rfl (by simp only [Backend.advance]; exact (by have : 0 ≤ d := hop; omega)) (by have : 0 ≤ d := hop; omega) _ _ hinv
+    · exact Inv_items cd s.be (s.be.advance d) rfl _ _ hinv
     · simp only [step, jstep, Backend.advance]; omega
     · simp only [step, jstep]; omega
   | raw k p b t => exact absurd hop (by simp [OpOk])
@@ -219,18 +306,29 @@ theorem noLru_oneLru : ∀ {ls}, noLru ls → oneLru ls
   | .ver _ :: ls, h => noLru_oneLru (ls := ls) h
   | .snap :: ls, h => noLru_oneLru (ls := ls) h
 
-theorem Inv_init (cd : Codec) (wall : Int) (be : Backend) (hbe : be.items = []) : ∀ (ls : List Layer) (f : View),
-    oneLru ls → emptyLrus ls → Inv cd wall be ls f
-  | [], f, _, _ => by intro k it hg; rw [hbe] at hg; simp [aGet] at hg
-  | .ver n :: ls, f, h1, h2 => Inv_init cd wall be hbe ls _ h1 h2
-  | .snap :: ls, f, h1, h2 => Inv_init cd wall be hbe ls _ h1 h2
-  | .lru _ _ e :: ls, f, h1, h2 => by
-    refine ⟨?_, Inv_init cd wall be hbe ls f (noLru_oneLru h1) h2.2, h1⟩
+theorem tVer_empty (n : Nat) (f : View) (h : ∀ k, f k = none) : ∀ k, tVer n f k = none := by
+  intro k; unfold tVer; split
+  · exact h _
+  · rfl
+
+theorem tSnap_empty (cd : Codec) (f : View) (h : ∀ k, f k = none) : ∀ k, tSnap cd f k = none := by
+  intro k; simp [tSnap, h k]
+
+theorem Inv_init (cd : Codec) (be : Backend) (hbe : be.items = []) : ∀ (ls : List Layer) (f : View),
+    (∀ k, f k = none) → oneLru ls → emptyLrus ls → Inv cd be ls f
+  | [], f, hf, _, _ => by
+    refine ⟨?_, ?_⟩
+    · intro k it hg; rw [hbe] at hg; simp [aGet] at hg
+    · intro k v a b h; rw [hf k] at h; simp at h
+  | .ver n :: ls, f, hf, h1, h2 => Inv_init cd be hbe ls _ (tVer_empty n f hf) h1 h2
+  | .snap :: ls, f, hf, h1, h2 => Inv_init cd be hbe ls _ (tSnap_empty cd f hf) h1 h2
+  | .lru _ _ e :: ls, f, hf, h1, h2 => by
+    refine ⟨?_, Inv_init cd be hbe ls f hf (noLru_oneLru h1) h2.2, h1⟩
     intro k it hg; rw [h2.1] at hg; simp [aGet] at hg
 
 theorem Rel_init (cd : Codec) (ls : List Layer) (v0 w0 : Int) (h1 : oneLru ls) (h2 : emptyLrus ls) :
     Rel cd (cfgOf ls) ⟨ls, ⟨[], v0⟩, w0⟩ ⟨[], v0, w0⟩ :=
-  ⟨Inv_init cd w0 ⟨[], v0⟩ rfl ls _ h1 h2, rfl, rfl, rfl⟩
+  ⟨Inv_init cd ⟨[], v0⟩ rfl ls _ (fun _ => rfl) h1 h2, rfl, rfl, rfl⟩
 
 theorem Rel_runTo (cd : Codec) (hcd : ∀ b, cd.dec (cd.enc b) = some b) (cfg : JCfg) :
     ∀ (ops : List (Op × List (List Key))) (s : St) (j : JSt), Rel cd cfg s j → (∀ o ∈ ops, OpOk o.1) →
@@ -240,23 +338,36 @@ theorem Rel_runTo (cd : Codec) (hcd : ∀ b, cd.dec (cd.enc b) = some b) (cfg : 
     obtain ⟨_, h2⟩ := step_ok cd hcd cfg s j op hs hr (hok (op, hs) List.mem_cons_self)
     exact Rel_runTo cd hcd cfg rest _ _ h2 (fun o ho => hok o (List.mem_cons_of_mem _ ho))
 
-/-- in a state related to the judge's, whatever a read returns is the judge's entry, within its deadline. -/
+/-- in a state related to the judge's, whatever a read returns is the judge's entry, either held by
+the in-memory layer within its deadline or within its TTL on the backend's clock. -/
 theorem read_sound (cd : Codec) (hcd : ∀ b, cd.dec (cd.enc b) = some b) (cfg : JCfg) (s : St) (j : JSt)
     (hr : Rel cd cfg s j) (keys : List Key) (hs : List (List Key)) :
     ∀ kv ∈ (getL cd s.wall s.layers s.be keys hs).2.1,
-      kv.1 ∈ keys ∧ ∃ dV dW, j.spec.get kv.1 = .present kv.2 dV dW ∧ (j.V < dV ∨ (cfg.hasLru = true ∧ j.W < dW)) := by
+      kv.1 ∈ keys ∧ ∃ dV dW fl, j.spec.get kv.1 = .present kv.2 dV dW fl ∧
+        ((holds s.layers kv.1 = true ∧ j.W < dW) ∨ j.V < dV) := by
   intro kv hkv
   obtain ⟨hinv, hV, hW, hcfg⟩ := hr
   obtain ⟨_, h2, _⟩ := getL_spec cd hcd s.wall s.be s.layers _ keys hs hinv
   obtain ⟨hk, a, b, hf, hor⟩ := h2 kv hkv
-  refine ⟨hk, a, b, viewOf_some hf, ?_⟩
-  rcases hor with h | ⟨hn, h⟩
-  · left; omega
-  · right
-    refine ⟨?_, by omega⟩
-    rw [hcfg]; unfold cfgOf
-    cases hf : firstLru s.layers with
-    | none => exact absurd (firstLru_none_noLru hf) hn
-    | some p => rfl
+  obtain ⟨fl, hg⟩ := viewOf_some hf
+  refine ⟨hk, a, b, fl, hg, ?_⟩
+  rcases hor with ⟨hh, h⟩ | h
+  · left; exact ⟨hh, by omega⟩
+  · right; omega
+
+/-- `Add` is refused exactly when the judge's entry for the key is within its TTL. -/
+theorem add_sound (cd : Codec) (cfg : JCfg) (s : St) (j : JSt) (hr : Rel cd cfg s j) (k : Key) (v : Bytes) (ttl : Int) :
+    (addL cd s.wall s.layers s.be k v ttl).2.2 = !liveV j k := by
+  obtain ⟨hinv, hV, hW, hcfg⟩ := hr
+  have hlive := live_iff cd s.be s.layers _ k hinv
+  rw [← hV] at hlive
+  rcases addL_cases cd s.wall s.layers s.be k v ttl with ⟨hl, h⟩ | ⟨hl, h⟩
+  · rw [h, (liveV_iff j k).mpr (hlive.mp hl)]; rfl
+  · rw [h]
+    cases hq : liveV j k with
+    | false => rfl
+    | true =>
+      have := hlive.mpr ((liveV_iff j k).mp hq)
+      rw [hl] at this; simp at this
 
 end PfC19
